@@ -10,6 +10,7 @@
 -/
 import EnrVerif.Proofs.CodecTheorems
 import EnrVerif.Model.Stream
+import EnrVerif.Proofs.StreamLemmas
 
 namespace EnrVerif
 
@@ -108,6 +109,27 @@ theorem C13_decode_list (S : Scheme) (rs : List Record) (rest : Bytes) (hv : ∀
   simp only
   rw [C13_decode_many S rs hv]
 
+/-- exactly: a buffer decodes as a sequence of records iff it is the concatenation of the encodings of
+    valid records — and then those are the records (no other splitting, nothing dropped) -/
+theorem C13_decode_many_iff (S : Scheme) (buf : Bytes) (rs : List Record) :
+    decodeMany S buf = .ok rs ↔ (∀ r ∈ rs, Valid S r) ∧ encodeAll rs = buf :=
+  decodeMany_iff S buf rs
+
+/-- the same for an RLP list of records: what was decoded re-encodes to the list that was read -/
+theorem C13_decode_list_spec (S : Scheme) (buf : Bytes) (rs : List Record) (rest : Bytes)
+    (h : decodeList S buf = .ok (rs, rest)) :
+    (∀ r ∈ rs, Valid S r) ∧ buf = encList (encodeAll rs) ++ rest :=
+  decodeList_spec S buf rs rest h
+
+/-- streams compose -/
+theorem C13_decode_many_append (S : Scheme) (a b : Bytes) (ra rb : List Record)
+    (ha : decodeMany S a = .ok ra) (hb : decodeMany S b = .ok rb) :
+    decodeMany S (a ++ b) = .ok (ra ++ rb) :=
+  decodeMany_append S a b ra rb ha hb
+
+#print axioms C13_decode_many_iff
+#print axioms C13_decode_list_spec
+#print axioms C13_decode_many_append
 #print axioms C13_prefix_local_ok
 #print axioms C13_prefix_local_err
 #print axioms C13_complete_item_consumed
